@@ -73,12 +73,18 @@ def method_row(recv, im, ret, retleaf, args):
     return [recv, im, ret, retleaf, len(args)] + [x for a in args for x in a]
 
 
+# argument shapes 0-11 as in coq/model/Glue.v, 12 Result<T,u8>, 13 std::result::Result<T,u8>, 14 std::option::Option<T>;
+# return shapes 0-12, 13 std::result::Result<T,u8>, 14 std::option::Option<T>
+NARG_SHAPES = 15
+NRET_SHAPES = 15
+
+
 def wf(ti, im, ret):
     """the supported grammar: io::Error results only as integer codes, u8 errors only as CResult"""
     im = im & 3
-    is_res = ret in (6, 7, 11, 12)
+    is_res = ret in (6, 7, 11, 12, 13)
     active = is_res and (im == 1 or (im == 0 and ti == 1))
-    if ret == 11:
+    if ret in (11, 13):
         return not active
     if ret == 12:
         return active
@@ -88,11 +94,11 @@ def wf(ti, im, ret):
 def ir_cases(rng, tier, only_wf=True):
     cases = []
     leaves = [2] if tier != "thorough" else [0, 2, 3, 6, 7]
-    shapes = [[]] + [[(s, 2)] for s in range(12)] + [[(1, 0), (4, 3)], [(3, 0), (0, 5), (7, 2)], [(8, 2), (11, 3)], [(6, 3), (6, 0)]]
+    shapes = [[]] + [[(s, 2)] for s in range(NARG_SHAPES)] + [[(1, 0), (4, 3)], [(12, 1), (13, 6)], [(14, 0), (5, 2)], [(3, 0), (0, 5), (7, 2)], [(8, 2), (11, 3)], [(6, 3), (6, 0)]]
     for ti in (0, 1):
         for recv in (0, 1, 2):
             for im in (0, 1, 2):
-                for ret in range(13):
+                for ret in range(NRET_SHAPES):
                     if only_wf and not wf(ti, im, ret):
                         continue
                     for args in shapes:
@@ -113,10 +119,10 @@ def ir_cases(rng, tier, only_wf=True):
         rows = []
         for _ in range(rng.range(2, 7)):
             while True:
-                recv, im, ret = rng.below(3), rng.below(3), rng.below(13)
+                recv, im, ret = rng.below(3), rng.below(3), rng.below(NRET_SHAPES)
                 if wf(ti, im, ret):
                     break
-            args = [(rng.below(12), rng.below(9)) for _ in range(rng.range(0, 4))]
+            args = [(rng.below(NARG_SHAPES), rng.below(9)) for _ in range(rng.range(0, 4))]
             if rng.chance(1, 4):
                 im += rng.choice([4, 8, 12])
             rows.append(method_row(recv, im, ret, rng.below(9), args))
@@ -262,7 +268,7 @@ def ir_monitor(l, impl_rows):
     return fails[:4]
 
 
-RESULT_RETS = (6, 7, 11, 12)
+RESULT_RETS = (6, 7, 11, 12, 13)
 
 
 def _ir_monitor_row(k, m, r, hdr=None):
@@ -375,10 +381,10 @@ def lint_cases(rng, tier):
     cases = []
     for ti in (0, 1):
         for recv in (0, 1, 2):
-            rows = [method_row(recv, 0, 1, 2, [(s, (s + 2) % 9)]) for s in range(12)]
+            rows = [method_row(recv, 0, 1, 2, [(s, (s + 2) % 9)]) for s in range(NARG_SHAPES)]
             cases.append("103 %d | %s" % (ti, " ; ".join(" ".join(map(str, r)) for r in rows)))
             for im in (0, 1, 2):
-                rows = [method_row(recv, im, ret, (ret + 1) % 9, [(0, 3)]) for ret in range(13) if wf(ti, im, ret) and not (recv == 2 and ret in REF_RETS)]
+                rows = [method_row(recv, im, ret, (ret + 1) % 9, [(0, 3)]) for ret in range(NRET_SHAPES) if wf(ti, im, ret) and not (recv == 2 and ret in REF_RETS)]
                 cases.append("103 %d | %s" % (ti, " ; ".join(" ".join(map(str, r)) for r in rows)))
     # the unsafe side: io::Error results that are NOT turned into integer codes
     for recv in (0, 1):
@@ -390,12 +396,12 @@ def lint_cases(rng, tier):
         rows = []
         for _ in range(rng.range(1, 6)):
             while True:
-                recv, im, ret = rng.below(3), rng.below(3), rng.below(13)
+                recv, im, ret = rng.below(3), rng.below(3), rng.below(NRET_SHAPES)
                 if wf(ti, im, ret) and not (recv == 2 and ret in REF_RETS):
                     break
             # methods returning a reference cannot take arguments with elided lifetimes (the generated fn-pointer type would need
             # a named lifetime: a compile error of the macro, i.e. outside the supported grammar)
-            shapes = [0, 4, 6, 9] if ret in REF_RETS else list(range(12))
+            shapes = [0, 4, 6, 9, 12, 13, 14] if ret in REF_RETS else list(range(NARG_SHAPES))
             rows.append(method_row(recv, im, ret, rng.below(9), [(rng.choice(shapes), rng.below(9)) for _ in range(rng.range(0, 3))]))
         cases.append("103 %d | %s" % (ti, " ; ".join(" ".join(map(str, r)) for r in rows)))
     return cases, {"lint_traits": len(cases)}
@@ -524,6 +530,25 @@ def layout_cases(rng, tier):
             t2 = 1 - ti                                                         # toggle trait-level int_result
             if not all(wf(t2, m[1], m[2]) for m in r2): t2 = ti; r2.append(method_row(1, 0, 0, 0, []))
         cases.append(line(ti, rows, t2, r2))
+    # canonical single edits whose verdict the property statement fixes by itself (third header field = expected verdict, ignored by the model)
+    def xline(t1, r1, t2, r2, exp):
+        return "20 %d %d %d | %s ; -1 ; %s" % (t1, t2, exp, " ; ".join(" ".join(map(str, r)) for r in r1), " ; ".join(" ".join(map(str, r)) for r in r2))
+    b0 = [method_row(0, 16 * 1, 1, 2, [(0, 2), (0, 3)]), method_row(1, 16 * 2, 6, 2, [(0, 2)])]     # n1(&self, u32, u64) -> u32 ; n2(&mut self, u32) -> Result<u32, ()>
+    def ed(f):
+        r = copy.deepcopy(b0); f(r); return r
+    cases.append(xline(0, b0, 0, b0, 0))
+    cases.append(xline(1, b0, 1, b0, 0))
+    cases.append(xline(0, b0, 0, ed(lambda r: r[0].__setitem__(6, 3)), 1))            # argument u32 -> u64
+    cases.append(xline(0, b0, 0, ed(lambda r: r[0].__setitem__(8, 2)), 1))            # argument u64 -> u32
+    cases.append(xline(0, b0, 0, ed(lambda r: r[0].__setitem__(3, 3)), 1))            # return u32 -> u64
+    cases.append(xline(0, b0, 0, ed(lambda r: r[0].__setitem__(0, 1)), 1))            # receiver &self -> &mut self
+    cases.append(xline(0, b0, 0, ed(lambda r: r[1].__setitem__(0, 0)), 1))            # receiver &mut self -> &self
+    cases.append(xline(0, b0, 1, b0, 1))                                              # trait-level int_result toggled (Result return)
+    cases.append(xline(0, b0, 0, ed(lambda r: r[1].__setitem__(1, 16 * 2 + 1)), 1))   # method-level int_result
+    cases.append(xline(0, b0, 0, ed(lambda r: r.reverse()), 1))                       # reordered
+    cases.append(xline(0, b0, 0, ed(lambda r: r[0].__setitem__(1, 16 * 3)), 1))       # renamed
+    cases.append(xline(0, b0, 0, ed(lambda r: r.append(method_row(0, 16 * 4, 0, 0, []))), 1))   # added
+    cases.append(xline(0, b0, 0, ed(lambda r: r.pop()), 1))                           # removed
     # groups (monitor only): identical / optional trait added / removed / moved to mandatory
     def gl(a, b):
         enc = lambda g: " ; ".join([str(g[0])] + [enc_name(n) for n in g[1]])
@@ -539,4 +564,6 @@ def layout_expected(l):
     hdr, a, b = _split_rows(l)
     if hdr[0] == 120:
         return 0 if (a[0] == b[0] and sorted(map(tuple, a[1:a[0][0] + 1])) == sorted(map(tuple, b[1:b[0][0] + 1])) and sorted(map(tuple, a[a[0][0] + 1:])) == sorted(map(tuple, b[b[0][0] + 1:]))) else 1
+    if hdr[0] == 20 and len(hdr) > 3:
+        return hdr[3]
     return None
